@@ -265,9 +265,12 @@ def single_defs(fn):
                 if isinstance(t, ast.Name):
                     add(t.id, n.value)
                 elif isinstance(t, (ast.Tuple, ast.List)):
+                    pairwise = isinstance(n.value, (ast.Tuple, ast.List)) and len(n.value.elts) == len(t.elts) \
+                        and not any(isinstance(x, ast.Starred) for x in list(t.elts) + list(n.value.elts))
                     for i, el in enumerate(t.elts):
                         if isinstance(el, ast.Name):
-                            add(el.id, ast.Subscript(value=n.value, slice=ast.Constant(i), ctx=ast.Load()))
+                            # `a, b = x, y` defines a as x and b as y; `a, b = pair` defines them as pair[0], pair[1]
+                            add(el.id, n.value.elts[i] if pairwise else ast.Subscript(value=n.value, slice=ast.Constant(i), ctx=ast.Load()))
         elif isinstance(n, (ast.AugAssign, ast.AnnAssign)):
             if isinstance(n.target, ast.Name):
                 bad.add(n.target.id)
